@@ -3,6 +3,7 @@
    proofs are in ConcReadProofs.v.
 
      fn read(&self, pos, len) {
+         if pos + len > self.len { return Err(OutOfBounds) }                                         // no lock, no system call
          let mut buffer = vec![0; len];
          if let Ok(_guard) = self.lock.try_lock() {  read_impl(&self.file, pos, &mut buffer)?  }   // shared handle
          else                                      {  read_impl(&self.open_file()?, pos, &mut buffer)?  } // private handle
@@ -18,11 +19,19 @@
 From Agdb Require Import Bytes.
 Local Open Scope nat_scope.
 
-(* seek(Start(cur)) followed by read_exact of len bytes on an immutable file:
+(* seek(Start(cur)) followed by read_exact of len bytes on an immutable file (system call level):
    an empty buffer is always filled; otherwise all len bytes must exist (else UnexpectedEof). *)
-Definition file_read (content : bytes) (cur len : nat) : option bytes :=
+Definition sys_read (content : bytes) (cur len : nat) : option bytes :=
   if (len =? 0) || (cur + len <=? length content)
   then Some (firstn len (skipn cur content)) else None.
+
+(* `read` first checks the requested range against the file length (`self.len`, immutable while the file is
+   only read; fix: dfdbce3 "rejects a range beyond the file before allocating") *)
+Definition in_range (content : bytes) (pos len : nat) : bool := pos + len <=? length content.
+
+(* FileStorage::read(pos, len) run alone: OutOfBounds error, or the bytes *)
+Definition file_read (content : bytes) (pos len : nat) : option bytes :=
+  if in_range content pos len then sys_read content pos len else None.
 
 (* position of a handle after read_exact (a failed read_exact has consumed the rest of the file) *)
 Definition cursor_after (content : bytes) (cur len : nat) : nat :=
@@ -65,7 +74,7 @@ Fixpoint prog_of_reqs (rs : list (nat * nat)) (acc : list (option bytes)) : prog
 
 (* where a thread is inside `read` *)
 Inductive pcst : Type :=
-| Idle                       (* next: try_lock for the head read of its program *)
+| Idle                       (* next: the range check, then try_lock, for the head read of its program *)
 | LSeek                      (* took the lock; next: seek on the SHARED handle *)
 | LRead                      (* next: read_exact on the shared handle at the shared cursor *)
 | LUnlock (r : option bytes) (* has its result; next: drop the guard and return *)
@@ -112,7 +121,9 @@ Definition step {A} (use_lock : bool) (content : bytes) (s : state A) (t : nat) 
       let finish r := upd (threads s) t (mkThread Idle (k r)) in
       match pc th with
       | Idle =>
-        if use_lock then
+        if negb (in_range content pos len) then
+          mkState (cursor s) (lock s) (finish None) (log s ++ [(t, pos, len, None)])
+        else if use_lock then
           match lock s with
           | None => mkState (cursor s) (Some t) (goto LSeek) (log s)
           | Some _ => mkState (cursor s) (lock s) (goto POpen) (log s)
@@ -121,13 +132,13 @@ Definition step {A} (use_lock : bool) (content : bytes) (s : state A) (t : nat) 
       | LSeek => mkState pos (lock s) (goto LRead) (log s)
       | LRead =>
         mkState (cursor_after content (cursor s) len) (lock s)
-                (goto (LUnlock (file_read content (cursor s) len))) (log s)
+                (goto (LUnlock (sys_read content (cursor s) len))) (log s)
       | LUnlock r =>
         mkState (cursor s) (if use_lock then None else lock s) (finish r) (log s ++ [(t, pos, len, r)])
       | POpen => mkState (cursor s) (lock s) (goto PSeek) (log s)
       | PSeek => mkState (cursor s) (lock s) (goto (PRead pos)) (log s)
       | PRead cur =>
-        let r := file_read content cur len in
+        let r := sys_read content cur len in
         mkState (cursor s) (lock s) (finish r) (log s ++ [(t, pos, len, r)])
       end
     end
